@@ -185,6 +185,7 @@ func (i *interpreter) patchGlobals(pkg *ssa.Package) {
 		set("startNano", int64(0))
 	case "net":
 		set("ErrClosed", i.newError("use of closed network connection"))
+		set("IPv6loopback", []value{byte(0), byte(0), byte(0), byte(0), byte(0), byte(0), byte(0), byte(0), byte(0), byte(0), byte(0), byte(0), byte(0), byte(0), byte(0), byte(1)})
 		set("v4InV6Prefix", []value{byte(0), byte(0), byte(0), byte(0), byte(0), byte(0), byte(0), byte(0), byte(0), byte(0), byte(0xff), byte(0xff)})
 	}
 }
